@@ -98,8 +98,19 @@ object_read_bencode_c_string(const char* first, const char* last) {
   // bit out.
   unsigned int length = 0x1U << (std::numeric_limits<unsigned int>::digits - 1);
 
-  while (first != last && *first >= '0' && *first <= '9')
-    length = length * 10 + (*first++ - '0');
+  bool has_digit = false;
+
+  while (first != last && *first >= '0' && *first <= '9') {
+    unsigned int digit = *first++ - '0';
+
+    // The first digit shifts the marker bit out, any later overflow
+    // would wrap the length so reject it.
+    if (has_digit && length > (std::numeric_limits<unsigned int>::max() - digit) / 10)
+      throw torrent::bencode_error("Invalid bencode data.");
+
+    length = length * 10 + digit;
+    has_digit = true;
+  }
 
   if (length + 1 > static_cast<unsigned int>(std::distance(first, last)) || length + 1 == 0 || *first++ != ':')
     throw torrent::bencode_error("Invalid bencode data.");
